@@ -129,8 +129,11 @@ Proof.
         -- intros Hle. destruct IH1 as (r'' & Heq & Hadv''); [lia|].
            exists r''. rewrite Heq. destruct Hadv as (Hd & Hrest).
            rewrite Hd, <- app_assoc, firstn_skipn_add. split.
-           ++ do 3 f_equal. lia.
-           ++ replace (Z.to_nat (min - len got)) with (n + Z.to_nat (min - (len got + Z.of_nat n)))%nat by lia.
+           ++ assert (En : (n + Z.to_nat (min - (len got + Z.of_nat n)))%nat = Z.to_nat (min - len got)).
+              { rewrite <- (Nat2Z.id n) at 1. rewrite <- Z2Nat.inj_add by lia. f_equal. lia. }
+              rewrite En. reflexivity.
+           ++ replace (Z.to_nat (min - len got)) with (n + Z.to_nat (min - (len got + Z.of_nat n)))%nat.
+              2:{ rewrite <- (Nat2Z.id n) at 1. rewrite <- Z2Nat.inj_add by lia. f_equal. lia. }
               eapply adv_trans; [|exact Hadv'']. split; assumption.
         -- intros Hlt _. apply IH2; lia.
       * (* EOF together with the last bytes *)
@@ -166,4 +169,546 @@ Proof.
   - intros H. destruct (H1 H) as (r' & Heq & Hd & Hfa & He & _).
     exists r'. rewrite Hfa. auto.
   - intros H. destruct (H2 H) as (g & r' & ->). reflexivity.
+Qed.
+
+(* ------------------------------------------------------------------ *)
+(* specification: pure decoding of a byte string                        *)
+(* ------------------------------------------------------------------ *)
+
+Fixpoint dec_points (k : nat) (s : list Z) : (list element * list Z) + serr :=
+  match k with
+  | O => inl ([], s)
+  | S k' =>
+      if len s <? 32 then inr SErrIO else
+      match bw_set_bytes (firstn 32 s) false with
+      | inr e => inr (SErrPoint e)
+      | inl p => match dec_points k' (skipn 32 s) with
+                 | inr e => inr e
+                 | inl (ps, rest) => inl (p :: ps, rest)
+                 end
+      end
+  end.
+
+Definition dec_scalar (s : list Z) : (Fr * list Z) + serr :=
+  if len s <? 32 then inr SErrIO else
+  match fst (fr_set_bytes_le_canonical (firstn 32 s)) with
+  | Some a => inl (a, skipn 32 s)
+  | None => inr SErrScalar
+  end.
+
+Definition ipa_decode (s : list Z) : (ipa_bytes_proof * list Z) + serr :=
+  match dec_points 8 s with
+  | inr e => inr e
+  | inl (L, s1) =>
+      match dec_points 8 s1 with
+      | inr e => inr e
+      | inl (R, s2) =>
+          match dec_scalar s2 with
+          | inr e => inr e
+          | inl (a, s3) => inl (mkIB L R a, s3)
+          end
+      end
+  end.
+
+(* MultiProof: D, the IPA proof, and nothing after it *)
+Definition mp_decode (s : list Z) : (element * ipa_bytes_proof) + serr :=
+  match dec_points 1 s with
+  | inr e => inr e
+  | inl (Ds, s1) =>
+      match ipa_decode s1 with
+      | inr e => inr e
+      | inl (ip, rest) =>
+          match rest with
+          | [] => inl (hd bw_identity Ds, ip)
+          | _ => inr SErrTrailing
+          end
+      end
+  end.
+
+(* readers without injected error whose state is "at stream s" *)
+Definition clean_at (r : reader) (s : list Z) (eofd : bool) : Prop :=
+  r_data r = s /\ r_fail_at r = None /\ r_eof_with_data r = eofd.
+
+Lemma read_point_spec r s eofd : clean_at r s eofd ->
+  (len s < 32 -> read_point r = inr SErrIO) /\
+  (32 <= len s ->
+     match bw_set_bytes (firstn 32 s) false with
+     | inl p => exists r', read_point r = inl (p, r') /\ clean_at r' (skipn 32 s) eofd
+     | inr e => read_point r = inr (SErrPoint e)
+     end).
+Proof.
+  intros (Hd & Hf & He). destruct (read_at_least_spec r Hf) as [H1 H2]. rewrite Hd in *. unfold read_point. split.
+  - intros H. specialize (H2 H). destruct (read_at_least 40 r [] 32) as [[g res] r']. cbn in H2. subst res. reflexivity.
+  - intros H. destruct (H1 H) as (r' & Heq & Hd' & Hf' & He'). rewrite Heq.
+    destruct (bw_set_bytes (firstn 32 s) false) as [p|e]; [|reflexivity].
+    exists r'. split; [reflexivity|]. unfold clean_at. rewrite Hd', Hf', He', He. auto.
+Qed.
+
+Lemma read_scalar_spec r s eofd : clean_at r s eofd ->
+  match dec_scalar s with
+  | inl (a, rest) => exists r', read_scalar r = inl (a, r') /\ clean_at r' rest eofd
+  | inr e => read_scalar r = inr e
+  end.
+Proof.
+  intros (Hd & Hf & He). destruct (read_at_least_spec r Hf) as [H1 H2]. rewrite Hd in *.
+  unfold dec_scalar, read_scalar. destruct (len s <? 32) eqn:E.
+  - assert (H : len s < 32) by lia. specialize (H2 H).
+    destruct (read_at_least 40 r [] 32) as [[g res] r']. cbn in H2. subst res. reflexivity.
+  - assert (H : 32 <= len s) by lia. destruct (H1 H) as (r' & Heq & Hd' & Hf' & He'). rewrite Heq.
+    destruct (fst (fr_set_bytes_le_canonical (firstn 32 s))) as [a|]; [|reflexivity].
+    exists r'. split; [reflexivity|]. unfold clean_at. rewrite Hd', Hf', He', He. auto.
+Qed.
+
+Lemma read_points_spec k : forall r s eofd, clean_at r s eofd ->
+  match dec_points k s with
+  | inl (ps, rest) => exists r', read_points k r = inl (ps, r') /\ clean_at r' rest eofd
+  | inr e => read_points k r = inr e
+  end.
+Proof.
+  induction k as [|k IH]; intros r s eofd Hc; cbn [dec_points read_points].
+  - exists r. split; [reflexivity|]. exact Hc.
+  - destruct (read_point_spec r s eofd Hc) as [H1 H2].
+    destruct (len s <? 32) eqn:E.
+    + rewrite H1 by lia. reflexivity.
+    + assert (H : 32 <= len s) by lia. specialize (H2 H).
+      destruct (bw_set_bytes (firstn 32 s) false) as [p|e].
+      * destruct H2 as (r' & Heq & Hc'). rewrite Heq.
+        specialize (IH r' (skipn 32 s) eofd Hc').
+        destruct (dec_points k (skipn 32 s)) as [[ps rest]|e].
+        -- destruct IH as (r'' & Heq' & Hc''). rewrite Heq'. exists r''. auto.
+        -- rewrite IH. reflexivity.
+      * rewrite H2. reflexivity.
+Qed.
+
+Lemma ipa_read_spec r s eofd : clean_at r s eofd ->
+  match ipa_decode s with
+  | inl (ip, rest) => exists r', ipa_read r = inl (ip, r') /\ clean_at r' rest eofd
+  | inr e => ipa_read r = inr e
+  end.
+Proof.
+  intros Hc. unfold ipa_decode, ipa_read.
+  pose proof (read_points_spec 8 r s eofd Hc) as H1.
+  destruct (dec_points 8 s) as [[L s1]|e]; [|rewrite H1; reflexivity].
+  destruct H1 as (r1 & -> & Hc1).
+  pose proof (read_points_spec 8 r1 s1 eofd Hc1) as H2.
+  destruct (dec_points 8 s1) as [[R s2]|e]; [|rewrite H2; reflexivity].
+  destruct H2 as (r2 & -> & Hc2).
+  pose proof (read_scalar_spec r2 s2 eofd Hc2) as H3.
+  destruct (dec_scalar s2) as [[a s3]|e]; [|rewrite H3; reflexivity].
+  destruct H3 as (r3 & -> & Hc3). exists r3. auto.
+Qed.
+
+(* the EOF probe of the repaired MultiProof.Read *)
+Lemma probe_strict r s eofd : clean_at r s eofd ->
+  let '(bs, e, _) := r_read r 1 in
+  match s with
+  | [] => e = REOF /\ bs = []
+  | _ => e = RNone \/ (e = REOF /\ bs <> [])
+  end.
+Proof.
+  intros (Hd & Hf & He). unfold r_read. rewrite Hf, Hd.
+  destruct s as [|b s].
+  - assert (Ha : Z.min (len (@nil Z)) (len (@nil Z) + r_pos r - r_pos r) = 0) by (unfold len; cbn; lia).
+    rewrite Ha. cbn. auto.
+  - replace (Z.min (len (b :: s)) (len (b :: s) + r_pos r - r_pos r)) with (len (b :: s)) by lia.
+    assert (Hl : 1 <= len (b :: s)) by (unfold len; cbn [length]; lia).
+    destruct (len (b :: s) <=? 0) eqn:E; [lia|].
+    set (chunk := match r_plan r with c :: _ => Z.max 1 c | [] => 1 end).
+    assert (Hm : Z.min 1 (Z.min chunk (len (b :: s))) = 1) by (unfold chunk; destruct (r_plan r); lia).
+    rewrite Hm. change (Z.to_nat 1) with 1%nat. cbn [firstn skipn].
+    destruct (r_eof_with_data r && (len s =? 0)); [right; split; [reflexivity|discriminate]|left; reflexivity].
+Qed.
+
+(* 2. MultiProof.Read (repaired probe) = pure decoding of the stream, for EVERY
+      chunk plan and both EOF styles of a reader without injected error *)
+Theorem mp_read_spec r : r_fail_at r = None -> mp_read true r = mp_decode (r_data r).
+Proof.
+  intros Hf. set (s := r_data r). set (eofd := r_eof_with_data r).
+  assert (Hc : clean_at r s eofd) by (unfold clean_at; auto).
+  unfold mp_read, mp_decode.
+  pose proof (read_point_spec r s eofd Hc) as [H1 H2]. cbn [dec_points].
+  destruct (len s <? 32) eqn:E; [rewrite H1 by lia; reflexivity|].
+  assert (H : 32 <= len s) by lia. specialize (H2 H).
+  destruct (bw_set_bytes (firstn 32 s) false) as [D|e]; [|rewrite H2; reflexivity].
+  destruct H2 as (r1 & -> & Hc1).
+  pose proof (ipa_read_spec r1 (skipn 32 s) eofd Hc1) as H3.
+  destruct (ipa_decode (skipn 32 s)) as [[ip rest]|e]; [|rewrite H3; reflexivity].
+  destruct H3 as (r2 & -> & Hc2).
+  pose proof (probe_strict r2 rest eofd Hc2) as Hp.
+  destruct (r_read r2 1) as [[bs e] r3]. cbn [hd].
+  destruct rest as [|b rest].
+  - destruct Hp as (-> & ->). reflexivity.
+  - destruct Hp as [->|(-> & Hb)]; [reflexivity|].
+    destruct bs; [congruence|]. reflexivity.
+Qed.
+
+Theorem ipa_read_spec_full r : r_fail_at r = None ->
+  match ipa_decode (r_data r) with
+  | inl (ip, rest) => exists r', ipa_read r = inl (ip, r') /\ r_data r' = rest
+  | inr e => ipa_read r = inr e
+  end.
+Proof.
+  intros Hf. pose proof (ipa_read_spec r (r_data r) (r_eof_with_data r)) as H.
+  specialize (H ltac:(unfold clean_at; auto)).
+  destruct (ipa_decode (r_data r)) as [[ip rest]|e]; [|exact H].
+  destruct H as (r' & Heq & Hd & _). exists r'. auto.
+Qed.
+
+(* the outcome does not depend on how the reader chunks the stream *)
+Corollary mp_read_chunking_independent r1 r2 :
+  r_fail_at r1 = None -> r_fail_at r2 = None -> r_data r1 = r_data r2 ->
+  mp_read true r1 = mp_read true r2.
+Proof. intros H1 H2 Hd. rewrite (mp_read_spec r1 H1), (mp_read_spec r2 H2), Hd. reflexivity. Qed.
+
+(* ---- shape of accepted strings ---- *)
+Lemma dec_points_len k : forall s ps rest,
+  dec_points k s = inl (ps, rest) -> len s = 32 * Z.of_nat k + len rest /\ length ps = k.
+Proof.
+  induction k as [|k IH]; intros s ps rest; cbn [dec_points].
+  - intros H. injection H as <- <-. cbn. lia.
+  - destruct (len s <? 32) eqn:E; [discriminate|].
+    destruct (bw_set_bytes (firstn 32 s) false) as [p|e]; [|discriminate].
+    destruct (dec_points k (skipn 32 s)) as [[ps' rest']|e] eqn:Ed; [|discriminate].
+    intros H. injection H as <- <-. destruct (IH _ _ _ Ed) as [Hl Hn].
+    unfold len in *. rewrite skipn_length in Hl. cbn [length]. lia.
+Qed.
+
+Theorem mp_decode_accepts_only_576 s v : mp_decode s = inl v -> len s = 576.
+Proof.
+  unfold mp_decode, ipa_decode, dec_scalar.
+  destruct (dec_points 1 s) as [[Ds s1]|e] eqn:E1; [|discriminate].
+  destruct (dec_points 8 s1) as [[L s2]|e] eqn:E2; [|discriminate].
+  destruct (dec_points 8 s2) as [[R s3]|e] eqn:E3; [|discriminate].
+  destruct (len s3 <? 32) eqn:E4; [discriminate|].
+  destruct (fst (fr_set_bytes_le_canonical (firstn 32 s3))) as [a|]; [|discriminate].
+  destruct (skipn 32 s3) as [|b rest] eqn:E5; [|discriminate]. intros _.
+  apply dec_points_len in E1, E2, E3. destruct E1 as [E1 _], E2 as [E2 _], E3 as [E3 _].
+  assert (len s3 = 32).
+  { assert (Hl : length (skipn 32 s3) = 0%nat) by (rewrite E5; reflexivity).
+    rewrite skipn_length in Hl. unfold len in *. lia. }
+  lia.
+Qed.
+
+Theorem ipa_decode_consumes_544 s ip rest : ipa_decode s = inl (ip, rest) -> len s = 544 + len rest.
+Proof.
+  unfold ipa_decode, dec_scalar.
+  destruct (dec_points 8 s) as [[L s2]|e] eqn:E2; [|discriminate].
+  destruct (dec_points 8 s2) as [[R s3]|e] eqn:E3; [|discriminate].
+  destruct (len s3 <? 32) eqn:E4; [discriminate|].
+  destruct (fst (fr_set_bytes_le_canonical (firstn 32 s3))) as [a|]; [|discriminate].
+  intros H. assert (Hr : rest = skipn 32 s3) by congruence. subst rest. clear H.
+  apply dec_points_len in E2, E3. destruct E2 as [E2 _], E3 as [E3 _].
+  unfold len in *. rewrite skipn_length. lia.
+Qed.
+
+(* ---- injected I/O error ---- *)
+Lemma read_point_fail r : avail r < 32 -> exists e, read_point r = inr e.
+Proof.
+  intros H. destruct (read_at_least_32 r) as [_ H2]. destruct (H2 H) as (g & r' & Heq).
+  unfold read_point. rewrite Heq. eauto.
+Qed.
+Lemma read_scalar_fail r : avail r < 32 -> exists e, read_scalar r = inr e.
+Proof.
+  intros H. destruct (read_at_least_32 r) as [_ H2]. destruct (H2 H) as (g & r' & Heq).
+  unfold read_scalar. rewrite Heq. eauto.
+Qed.
+Lemma read_point_adv r p r' : read_point r = inl (p, r') -> 32 <= avail r /\ adv 32 r r'.
+Proof.
+  unfold read_point. destruct (read_at_least_32 r) as [H1 H2].
+  destruct (Z_lt_le_dec (avail r) 32) as [Hlt|Hge].
+  - destruct (H2 Hlt) as (g & r1 & ->). discriminate.
+  - destruct (H1 Hge) as (r1 & -> & Hadv).
+    destruct (bw_set_bytes _ false); [|discriminate]. intros H. injection H as _ <-. auto.
+Qed.
+Lemma read_scalar_adv r a r' : read_scalar r = inl (a, r') -> 32 <= avail r /\ adv 32 r r'.
+Proof.
+  unfold read_scalar. destruct (read_at_least_32 r) as [H1 H2].
+  destruct (Z_lt_le_dec (avail r) 32) as [Hlt|Hge].
+  - destruct (H2 Hlt) as (g & r1 & ->). discriminate.
+  - destruct (H1 Hge) as (r1 & -> & Hadv).
+    destruct (fst (fr_set_bytes_le_canonical _)); [|discriminate]. intros H. injection H as _ <-. auto.
+Qed.
+Lemma read_points_adv k : forall r ps r', read_points k r = inl (ps, r') ->
+  ((1 <= k)%nat -> 32 * Z.of_nat k <= avail r) /\ adv (32 * k) r r'.
+Proof.
+  induction k as [|k IH]; intros r ps r'; cbn [read_points].
+  - intros H. injection H as _ <-. split; [lia|apply adv_0].
+  - destruct (read_point r) as [[p r1]|e] eqn:E1; [|discriminate].
+    destruct (read_points k r1) as [[ps' r2]|e] eqn:E2; [|discriminate].
+    intros H. injection H as _ <-.
+    destruct (read_point_adv _ _ _ E1) as [Ha Hadv]. destruct (IH _ _ _ E2) as [Ha' Hadv'].
+    rewrite (avail_adv _ _ _ Hadv) in Ha' by (cbn; lia).
+    split; [intros _; destruct k as [|k]; [cbn; lia|]; specialize (Ha' ltac:(lia)); lia|].
+    replace (32 * S k)%nat with (32 + 32 * k)%nat by lia.
+    eapply adv_trans; eassumption.
+Qed.
+
+(* 3. an I/O error injected before the 576th byte (resp. 544th for IPAProof.Read)
+      makes Read fail, whatever the stream, the chunking and the EOF style *)
+Lemma ipa_read_needs_544 r ip r' : ipa_read r = inl (ip, r') -> 544 <= avail r /\ adv 544 r r'.
+Proof.
+  unfold ipa_read.
+  destruct (read_points 8 r) as [[L r1]|e] eqn:E1; [|discriminate].
+  destruct (read_points 8 r1) as [[R r2]|e] eqn:E2; [|discriminate].
+  destruct (read_scalar r2) as [[a r3]|e] eqn:E3; [|discriminate].
+  intros H. injection H as _ <-.
+  destruct (read_points_adv _ _ _ _ E1) as [A1 D1]. destruct (read_points_adv _ _ _ _ E2) as [A2 D2].
+  destruct (read_scalar_adv _ _ _ E3) as [A3 D3].
+  specialize (A1 ltac:(lia)). specialize (A2 ltac:(lia)).
+  rewrite (avail_adv _ _ _ D1) in A2 by (cbn; lia).
+  assert (D12 : adv (32 * 8 + 32 * 8) r r2) by (eapply adv_trans; eassumption).
+  rewrite (avail_adv _ _ _ D12) in A3 by (cbn in *; lia).
+  split; [cbn in *; lia|].
+  change 544%nat with (32 * 8 + 32 * 8 + 32)%nat. eapply adv_trans; eassumption.
+Qed.
+
+Theorem ipa_read_fault r : avail r < 544 -> exists e, ipa_read r = inr e.
+Proof.
+  intros H. destruct (ipa_read r) as [[ip r']|e] eqn:E; [|eauto].
+  destruct (ipa_read_needs_544 _ _ _ E). lia.
+Qed.
+
+Theorem mp_read_fault strict r : avail r < 576 -> exists e, mp_read strict r = inr e.
+Proof.
+  intros H. unfold mp_read.
+  destruct (read_point r) as [[D r1]|e] eqn:E1; [|eauto].
+  destruct (read_point_adv _ _ _ E1) as [A1 D1].
+  destruct (ipa_read r1) as [[ip r2]|e] eqn:E2; [|eauto].
+  destruct (ipa_read_needs_544 _ _ _ E2) as [A2 _].
+  rewrite (avail_adv _ _ _ D1) in A2 by (cbn; lia). cbn in A2. lia.
+Qed.
+
+(* in particular: fail_at = Some k with k < 576 *)
+Corollary mp_read_injected_error strict data plan eofd k :
+  k < 576 -> exists e, mp_read strict (mkR data plan eofd (Some k) 0) = inr e.
+Proof. intros Hk. apply mp_read_fault. unfold avail; cbn. lia. Qed.
+
+(* ---- writers ---- *)
+Lemma write_all_ok chunks : forall written, write_all chunks None written = (written ++ concat chunks, false).
+Proof.
+  induction chunks as [|c cs IH]; intros w; cbn [write_all concat]; [now rewrite app_nil_r|].
+  rewrite IH, app_assoc. reflexivity.
+Qed.
+
+(* a writer failing at the k-th Write call, for every k below the number of calls,
+   makes Write return an error *)
+Theorem write_all_fails chunks : forall k written, (k < length chunks)%nat ->
+  snd (write_all chunks (Some k) written) = true.
+Proof.
+  induction chunks as [|c cs IH]; intros k w Hk; [cbn in Hk; lia|].
+  destruct k as [|k]; cbn [write_all]; [reflexivity|]. apply IH. cbn in Hk. lia.
+Qed.
+
+Lemma mp_write_chunks_count D ip : length (ibL ip) = 8%nat -> length (ibR ip) = 8%nat ->
+  length (mp_write_chunks D ip) = 18%nat.
+Proof.
+  intros HL HR. unfold mp_write_chunks, ipa_write_chunks. cbn [length].
+  rewrite !app_length, !map_length, HL, HR. reflexivity.
+Qed.
+
+(* ---- round trips ---- *)
+(* a point whose own encoding is accepted and decodes back to itself *)
+Definition point_roundtrips (P : element) : Prop := bw_set_bytes (bw_bytes P) false = inl P.
+
+Lemma bw_bytes_len32 P : len (bw_bytes P) = 32.
+Proof. unfold len. unfold bw_bytes. destruct (bw_affine P). unfold fp_bytes. rewrite be_enc_length. reflexivity. Qed.
+
+Lemma firstn32_app P rest : firstn 32 (bw_bytes P ++ rest) = bw_bytes P.
+Proof.
+  pose proof (bw_bytes_len32 P) as H. unfold len in H.
+  assert (E : length (bw_bytes P) = 32%nat) by lia. rewrite <- E.
+  rewrite firstn_app, Nat.sub_diag, firstn_all, firstn_O. apply app_nil_r.
+Qed.
+Lemma skipn32_app P rest : skipn 32 (bw_bytes P ++ rest) = rest.
+Proof.
+  pose proof (bw_bytes_len32 P) as H. unfold len in H.
+  assert (E : length (bw_bytes P) = 32%nat) by lia. rewrite <- E.
+  rewrite skipn_app, Nat.sub_diag, skipn_all. reflexivity.
+Qed.
+
+Lemma dec_points_concat ps : forall rest, Forall point_roundtrips ps ->
+  dec_points (length ps) (concat (map bw_bytes ps) ++ rest) = inl (ps, rest).
+Proof.
+  induction ps as [|P ps IH]; intros rest HF; [reflexivity|].
+  inversion HF as [|? ? HP HF']; subst. cbn [length dec_points map concat]. rewrite <- app_assoc.
+  assert (Hl : (len (bw_bytes P ++ concat (map bw_bytes ps) ++ rest) <? 32) = false).
+  { rewrite len_app, bw_bytes_len32. unfold len. lia. }
+  rewrite Hl, firstn32_app, skipn32_app. unfold point_roundtrips in HP. rewrite HP, IH by exact HF'.
+  reflexivity.
+Qed.
+
+(* Read(Write(p)) = p for every proof with 8+8 round-tripping points *)
+Theorem mp_write_read_roundtrip D ip :
+  point_roundtrips D -> Forall point_roundtrips (ibL ip) -> Forall point_roundtrips (ibR ip) ->
+  length (ibL ip) = 8%nat -> length (ibR ip) = 8%nat ->
+  mp_decode (concat (mp_write_chunks D ip)) = inl (D, ip).
+Proof.
+  intros HD HL HR L8 R8. unfold mp_write_chunks, ipa_write_chunks.
+  cbn [concat]. rewrite !concat_app. cbn [concat]. rewrite app_nil_r.
+  set (tailL := concat (map bw_bytes (ibL ip)) ++ concat (map bw_bytes (ibR ip)) ++ fr_bytes_le (ibA ip)).
+  unfold mp_decode. cbn [dec_points].
+  assert (Hl0 : (len (bw_bytes D ++ tailL) <? 32) = false).
+  { rewrite len_app, bw_bytes_len32. unfold len. lia. }
+  rewrite Hl0, firstn32_app, skipn32_app. unfold point_roundtrips in HD. rewrite HD.
+  unfold ipa_decode, tailL.
+  rewrite <- L8. rewrite (dec_points_concat (ibL ip) _ HL).
+  rewrite L8, <- R8. rewrite (dec_points_concat (ibR ip) _ HR).
+  unfold dec_scalar.
+  assert (Hlen : length (fr_bytes_le (ibA ip)) = 32%nat) by apply fr_bytes_length.
+  assert (Hl : (len (fr_bytes_le (ibA ip)) <? 32) = false) by (unfold len; rewrite Hlen; reflexivity).
+  rewrite Hl. rewrite <- Hlen at 1. rewrite firstn_all. rewrite fr_bytes_le_canonical_roundtrip.
+  rewrite <- Hlen. rewrite skipn_all. cbn [hd]. destruct ip; reflexivity.
+Qed.
+
+(* ---- the pinned (pre-repair) EOF probe is refuted: finding F3 ---- *)
+Lemma dec_points_app k : forall s t ps rest,
+  dec_points k s = inl (ps, rest) -> dec_points k (s ++ t) = inl (ps, rest ++ t).
+Proof.
+  induction k as [|k IH]; intros s t ps rest; cbn [dec_points].
+  - intros H. injection H as <- <-. reflexivity.
+  - destruct (len s <? 32) eqn:E; [discriminate|].
+    assert (E' : (len (s ++ t) <? 32) = false) by (rewrite len_app; unfold len in *; lia).
+    rewrite E'.
+    assert (Hs : (32 <= length s)%nat) by (unfold len in E; lia).
+    rewrite firstn_app. replace (32 - length s)%nat with 0%nat by lia. rewrite firstn_O, app_nil_r.
+    rewrite skipn_app. replace (32 - length s)%nat with 0%nat by lia. rewrite skipn_O.
+    destruct (bw_set_bytes (firstn 32 s) false) as [p|e]; [|discriminate].
+    destruct (dec_points k (skipn 32 s)) as [[ps' rest']|e] eqn:Ed; [|discriminate].
+    intros H. injection H as <- <-. rewrite (IH _ t _ _ Ed). reflexivity.
+Qed.
+
+Lemma dec_scalar_app s t a rest : dec_scalar s = inl (a, rest) -> dec_scalar (s ++ t) = inl (a, rest ++ t).
+Proof.
+  unfold dec_scalar. destruct (len s <? 32) eqn:E; [discriminate|].
+  assert (E' : (len (s ++ t) <? 32) = false) by (rewrite len_app; unfold len in *; lia).
+  rewrite E'. assert (Hs : (32 <= length s)%nat) by (unfold len in E; lia).
+  rewrite firstn_app. replace (32 - length s)%nat with 0%nat by lia. rewrite firstn_O, app_nil_r.
+  rewrite skipn_app. replace (32 - length s)%nat with 0%nat by lia. rewrite skipn_O.
+  destruct (fst (fr_set_bytes_le_canonical (firstn 32 s))) as [a'|]; [|discriminate].
+  intros H. congruence.
+Qed.
+
+Lemma ipa_decode_app s t ip rest : ipa_decode s = inl (ip, rest) -> ipa_decode (s ++ t) = inl (ip, rest ++ t).
+Proof.
+  unfold ipa_decode.
+  destruct (dec_points 8 s) as [[L s1]|e] eqn:E1; [|discriminate]. rewrite (dec_points_app _ _ t _ _ E1).
+  destruct (dec_points 8 s1) as [[R s2]|e] eqn:E2; [|discriminate]. rewrite (dec_points_app _ _ t _ _ E2).
+  destruct (dec_scalar s2) as [[a s3]|e] eqn:E3; [|discriminate]. rewrite (dec_scalar_app _ t _ _ E3).
+  intros H. injection H as <- <-. reflexivity.
+Qed.
+
+Lemma probe_one_byte r b : clean_at r [b] true -> exists r', r_read r 1 = ([b], REOF, r').
+Proof.
+  intros (Hd & Hf & He). unfold r_read. rewrite Hf, Hd, He.
+  assert (Hl : len [b] = 1) by reflexivity. rewrite Hl.
+  replace (Z.min 1 (1 + r_pos r - r_pos r)) with 1 by lia.
+  cbn [Z.leb Z.compare].
+  set (chunk := match r_plan r with c :: _ => Z.max 1 c | [] => 1 end).
+  assert (Hm : Z.min 1 (Z.min chunk 1) = 1) by (unfold chunk; destruct (r_plan r); lia).
+  rewrite Hm. change (Z.to_nat 1) with 1%nat. cbn. eexists. reflexivity.
+Qed.
+
+(* for EVERY accepted 576-byte string s: appending one byte and delivering it together
+   with io.EOF makes the pinned Read accept (with the same proof) what the specification
+   rejects as trailing data; the repaired Read rejects it *)
+Theorem mp_read_lax_refuted s v b plan :
+  mp_decode s = inl v ->
+  let r := mkR (s ++ [b]) plan true None 0 in
+  mp_read false r = inl v /\ mp_decode (s ++ [b]) = inr SErrTrailing /\ mp_read true r = inr SErrTrailing.
+Proof.
+  intros Hs r.
+  assert (Hspec : mp_decode (s ++ [b]) = inr SErrTrailing /\
+                  exists D ip, v = (D, ip) /\ dec_points 1 (s ++ [b]) = inl ([D], skipn 32 s ++ [b])
+                               /\ ipa_decode (skipn 32 s ++ [b]) = inl (ip, [b])).
+  { revert Hs. unfold mp_decode.
+    destruct (dec_points 1 s) as [[Ds s1]|e] eqn:E1; [|discriminate].
+    destruct (ipa_decode s1) as [[ip rest]|e] eqn:E2; [|discriminate].
+    destruct rest as [|x rest]; [|discriminate]. intros H. injection H as <-.
+    rewrite (dec_points_app _ _ [b] _ _ E1), (ipa_decode_app _ [b] _ _ E2). cbn [app].
+    split; [reflexivity|].
+    assert (Hs1 : s1 = skipn 32 s /\ exists D, Ds = [D]).
+    { revert E1. cbn [dec_points]. destruct (len s <? 32); [discriminate|].
+      destruct (bw_set_bytes (firstn 32 s) false) as [p|e]; [|discriminate].
+      intros H. split; [congruence|]. exists p. congruence. }
+    destruct Hs1 as (-> & D & ->). exists D, ip. cbn [hd]. split; [reflexivity|split].
+    - reflexivity.
+    - exact (ipa_decode_app _ [b] _ _ E2). }
+  destruct Hspec as (Hrej & D & ip & -> & HD & HI).
+  split; [|split; [exact Hrej|]].
+  2:{ rewrite mp_read_spec by reflexivity. exact Hrej. }
+  assert (Hc : clean_at r (s ++ [b]) true) by (unfold clean_at, r; auto).
+  unfold mp_read.
+  pose proof (read_points_spec 1 r (s ++ [b]) true Hc) as H1. rewrite HD in H1.
+  destruct H1 as (r1 & Heq1 & Hc1). cbn [read_points] in Heq1.
+  destruct (read_point r) as [[D' r1']|e]; [|discriminate].
+  assert (D' = D /\ r1' = r1) as (-> & ->) by (split; congruence).
+  pose proof (ipa_read_spec r1 _ true Hc1) as H2. rewrite HI in H2.
+  destruct H2 as (r2 & -> & Hc2).
+  destruct (probe_one_byte r2 b Hc2) as (r3 & ->). reflexivity.
+Qed.
+
+(* ---- Write(decode s) = s for accepted s ---- *)
+(* premise on the point codec (proved in Proofs/DecodeProofs.v under its own
+   side conditions): an accepted 32-byte string re-encodes to itself *)
+Definition point_reencodes : Prop :=
+  forall b P, bytes_ok b -> bw_set_bytes b false = inl P -> bw_bytes P = b.
+
+
+Lemma scalar_reencodes b a : bytes_ok b -> length b = 32%nat ->
+  fst (fr_set_bytes_le_canonical b) = Some a -> fr_bytes_le a = b.
+Proof.
+  intros Hok Hl. unfold fr_set_bytes_le_canonical.
+  destruct (le_val b <? r_mod) eqn:E; cbn [fst]; [|discriminate].
+  intros H. injection H as <-. unfold fr_bytes_le. rewrite fr_set_big_int_val.
+  pose proof (le_val_nonneg b Hok). rewrite Z.mod_small by lia.
+  rewrite <- Hl. apply le_enc_val, Hok.
+Qed.
+
+Lemma dec_points_reencode (HR : point_reencodes) k : forall s ps rest,
+  bytes_ok s -> dec_points k s = inl (ps, rest) -> s = concat (map bw_bytes ps) ++ rest.
+Proof.
+  induction k as [|k IH]; intros s ps rest Hok; cbn [dec_points].
+  - intros H. injection H as <- <-. reflexivity.
+  - destruct (len s <? 32) eqn:E; [discriminate|].
+    destruct (bw_set_bytes (firstn 32 s) false) as [p|e] eqn:Ep; [|discriminate].
+    destruct (dec_points k (skipn 32 s)) as [[ps' rest']|e] eqn:Ed; [|discriminate].
+    intros H. injection H as <- <-. cbn [map concat]. rewrite <- app_assoc.
+    rewrite <- (IH _ _ _ (bytes_ok_skipn 32 s Hok) Ed).
+    rewrite (HR _ _ (bytes_ok_firstn 32 s Hok) Ep). symmetry. apply firstn_skipn.
+Qed.
+
+Theorem mp_decode_write (HR : point_reencodes) s D ip :
+  bytes_ok s -> mp_decode s = inl (D, ip) -> concat (mp_write_chunks D ip) = s.
+Proof.
+  intros Hok. unfold mp_decode, ipa_decode, dec_scalar.
+  destruct (dec_points 1 s) as [[Ds s1]|e] eqn:E1; [|discriminate].
+  destruct (dec_points 8 s1) as [[L s2]|e] eqn:E2; [|discriminate].
+  destruct (dec_points 8 s2) as [[R s3]|e] eqn:E3; [|discriminate].
+  destruct (len s3 <? 32) eqn:E4; [discriminate|].
+  destruct (fst (fr_set_bytes_le_canonical (firstn 32 s3))) as [a|] eqn:E5; [|discriminate].
+  destruct (skipn 32 s3) as [|x rest] eqn:E6; [|discriminate].
+  intros H. injection H as <- <-.
+  pose proof (dec_points_reencode HR 1 s Ds s1 Hok E1) as H1.
+  assert (Hok1 : bytes_ok s1).
+  { revert E1. cbn [dec_points]. destruct (len s <? 32); [discriminate|].
+    destruct (bw_set_bytes (firstn 32 s) false); [|discriminate]. intros H.
+    assert (Es : s1 = skipn 32 s) by congruence. rewrite Es. apply bytes_ok_skipn, Hok. }
+  pose proof (dec_points_reencode HR 8 s1 L s2 Hok1 E2) as H2.
+  assert (Hok2 : bytes_ok s2).
+  { rewrite H2 in Hok1. unfold bytes_ok in *. apply Forall_app in Hok1. tauto. }
+  pose proof (dec_points_reencode HR 8 s2 R s3 Hok2 E3) as H3.
+  assert (Hok3 : bytes_ok s3).
+  { rewrite H3 in Hok2. unfold bytes_ok in *. apply Forall_app in Hok2. tauto. }
+  assert (Hl3 : length s3 = 32%nat).
+  { assert (Hz : length (skipn 32 s3) = 0%nat) by (rewrite E6; reflexivity).
+    rewrite skipn_length in Hz. unfold len in E4. lia. }
+  assert (Hs3 : firstn 32 s3 = s3) by (rewrite <- Hl3; apply firstn_all).
+  rewrite Hs3 in E5. pose proof (scalar_reencodes s3 a Hok3 Hl3 E5) as H4.
+  assert (HD : exists D0, Ds = [D0]).
+  { revert E1. cbn [dec_points]. destruct (len s <? 32); [discriminate|].
+    destruct (bw_set_bytes (firstn 32 s) false) as [p|]; [|discriminate]. intros H. exists p. congruence. }
+  destruct HD as (D0 & ->). cbn [hd].
+  unfold mp_write_chunks, ipa_write_chunks. cbn [concat ibL ibR ibA]. rewrite !concat_app. cbn [concat].
+  rewrite app_nil_r, H4. rewrite H1. cbn [map concat]. rewrite app_nil_r.
+  rewrite H2. rewrite H3. rewrite <- ?app_assoc. reflexivity.
 Qed.
